@@ -46,6 +46,7 @@ type params struct {
 	NoScrib  bool            `json:"no_scribble,omitempty"`
 	Sched    json.RawMessage `json:"sched,omitempty"`
 	Extra    map[string]int  `json:"extra,omitempty"`
+	Batch    []uint64        `json:"batch,omitempty"`
 }
 
 type result struct {
@@ -318,7 +319,7 @@ func runWorkers(b *build, prop string, p part, seed uint64, secs float64, a *agg
 			args := []string{"-known", filepath.Join(b.scratch, "known.txt"), "-prop", prop, "-scen", p.Scen, "-seed", strconv.FormatUint(seed, 10), "-from", strconv.Itoa(w),
 				"-stride", strconv.Itoa(nw), "-n", "100000000", "-secs", fmt.Sprintf("%.1f", secs)}
 			cmd := exec.Command(bin, args...)
-			cmd.Env = append(os.Environ(), "GORACE=halt_on_error=0 exitcode=0 log_path="+filepath.Join(b.scratch, fmt.Sprintf("race-%d", w)))
+			cmd.Env = append(os.Environ(), "GORACE=halt_on_error=0 exitcode=0 suppress_equal_stacks=0 suppress_equal_addresses=0 log_path="+filepath.Join(b.scratch, fmt.Sprintf("race-%d", w)))
 			out, _ := cmd.StdoutPipe()
 			var errb bytes.Buffer
 			cmd.Stderr = &errb
@@ -379,7 +380,7 @@ func runOne(b *build, p params, race bool) (*result, error) {
 		bin = b.raceW
 	}
 	cmd := exec.Command(bin, "-known", filepath.Join(b.scratch, "known.txt"), "-replay", f)
-	cmd.Env = append(os.Environ(), "GORACE=halt_on_error=0 exitcode=0 log_path="+filepath.Join(b.scratch, "race-replay"))
+	cmd.Env = append(os.Environ(), "GORACE=halt_on_error=0 exitcode=0 suppress_equal_stacks=0 suppress_equal_addresses=0 log_path="+filepath.Join(b.scratch, "race-replay"))
 	var out, errb bytes.Buffer
 	cmd.Stdout = &out
 	cmd.Stderr = &errb
@@ -673,8 +674,18 @@ func check(prop, tier string) int {
 			if tier == "quick" {
 				minb = 20 * time.Second
 			}
+			batch := v.Params.Batch
+			v.Params.Batch = nil
 			m := minimise(b, v, p.Race, minb)
 			conf, err := runOne(b, m.Params, p.Race)
+			if (err != nil || conf.V == nil || !sameViolation(conf.V, v.V)) && len(batch) == 4 {
+				// a race report can depend on what the worker process ran before:
+				// replay the worker's own sequence up to this run
+				bp := v.Params
+				bp.Batch = batch
+				bp.Skip = nil
+				conf, err = runOne(b, bp, p.Race)
+			}
 			if err != nil || conf.V == nil || !sameViolation(conf.V, v.V) {
 				b.cleanup()
 				die2("determinism failure of the machinery: violation %s of seed %d did not reproduce in a fresh process (%v)", v.V.Sig, v.Params.Seed, err)
